@@ -84,14 +84,6 @@ def scanCan (cans : List Bool) (n : Nat) : List Call × Option Nat :=
     | f + 1, c :: cs => if c then (acc ++ [.can j true], some j) else go (j + 1) cs f (acc ++ [.can j false])
   go 0 cans n []
 
-def selectIdx (s : SrcState) (a : Ans) : SrcState × Option Int × List Call :=
-  match s.cfg.pol with
-  | .const k => (s, some k, [])
-  | .rr => ({ s with rr := (s.rr + 1) % s.cfg.nout }, some (s.rr : Int), [])
-  | .rnd => (s, a.sels.head?, [])
-  | .user => (s, a.sels.head?, (a.sels.head?.map fun k => [Call.sel k]).getD [])
-  | .fa => (s, none, [])
-
 def behaviour (s : SrcState) (t : Nat) (a : Ans) : SrcState × List Call :=
   match s.pc with
   | .start =>
@@ -125,10 +117,11 @@ def behaviour (s : SrcState) (t : Nat) (a : Ans) : SrcState × List Call :=
           let (s3, c) := s2.spawnPush j it true
           (s3, calls ++ c)
     | _ =>
-      let (s2, k?, c0) := s1.selectIdx a
-      match k? with
-      | none => ({ s2 with pc := .dead, flagged := true }, [.bad])
+      match (selIdx s.cfg.pol s.rr s.cfg.nout a).1 with
+      | none => ({ s1 with pc := .dead, flagged := true }, [.bad])
       | some k =>
+        let s2 := { s1 with rr := (selIdx s.cfg.pol s.rr s.cfg.nout a).2.1 }
+        let c0 := (selIdx s.cfg.pol s.rr s.cfg.nout a).2.2
         if k < 0 ∨ k ≥ s.cfg.nout then s2.crash .index c0
         else
           let j := k.toNat
@@ -159,7 +152,7 @@ def behaviour (s : SrcState) (t : Nat) (a : Ans) : SrcState × List Call :=
   | .pushWait sub thenGen =>
     match s.subs.find? (fun p => p.ord = sub) with
     | some p =>
-      if p.done then
+      if p.done && s.hand.isEmpty then      -- done ⇒ the item was handed over
         let s1 := if thenGen then { s with clock := s.clock.update 1 t } else s
         s1.loopTop t a
       else ({ s with flagged := true }, [.bad])
